@@ -42,9 +42,8 @@ func c16(c *evid.Ctx) {
 	for run := 0; run < runs && c.NumViolations() < 20; run++ {
 		c16run(c, r, run)
 	}
-	if c.Counter("announce_peer queries checked") == 0 || c.Counter("announces that finished") == 0 {
-		c.Inconclusive("no announce_peer observed")
-	}
+	c.Floor("announce_peer queries checked", 1)
+	c.Floor("announces that finished", 1)
 }
 
 func c16run(c *evid.Ctx, r *gen.Rand, run int) {
